@@ -84,11 +84,17 @@ def main(argv=None):
 def run_check(prop, info, tier, seed, only, verbose):
     for m in info["modules"]:
         importlib.import_module(m)
-    timeout_ms = 20000 if tier == "quick" else 90000
+    timeout_ms = 6000 if tier == "quick" else 30000
     reports = generate(prop, only)
     obs = [o for r in reports for o in r.obligations]
     t_solve = time.time()
     discharge(obs, timeout_ms)
+    # undecided queries get a second, longer attempt (few at a time, so that a busy machine cannot flip a verdict)
+    retry = [o for o in obs if o.result not in ("unsat", "sat")]
+    if retry:
+        for o in retry:
+            o.result = ""
+        discharge(retry, timeout_ms * 4, procs=8)
     t_solve = time.time() - t_solve
     known = load_known_findings()
     violations, undecided, errors, known_hits, unknowns = [], [], [], [], []
@@ -155,6 +161,12 @@ def run_check(prop, info, tier, seed, only, verbose):
                 w = None
         if w is not None:
             o.model = "(solver answer: unknown; violation established by the run-time contract on the real code)\n" + o.model
+            violations.append(o)
+        elif kf is None:
+            # every obligation discharges on the pinned tree (that is what exit 0 there means): an obligation
+            # that can no longer be discharged, even with the long budget and all back ends, is reported
+            # as a violation without a failing input (the replay file carries the solver's reason).
+            o.model = f"(no counter-model: all back ends answered '{o.result}' within the extended budget; this clause is discharged on the pinned tree)\n" + o.model
             violations.append(o)
         else:
             undecided.append((o.name, f"solver: {o.result} {o.model[:200]}"))
